@@ -8,7 +8,7 @@ claim('C12',
       'engine are trusted, every model is replayed natively.',
       'symbolic execution of the real code with z3 (minisym), validity queries per path', 'DESIGN.md §4 C12')
 _todo = ('check not built yet in this round; see DESIGN.md §8 build order')
-for _p in ['C03', 'C04', 'C05', 'C06', 'C07', 'C11', 'C14', 'C15', 'C16', 'C17', 'C20']:
+for _p in ['C03', 'C05', 'C06', 'C07', 'C11', 'C14', 'C15', 'C16', 'C17', 'C20']:
     na(_p, _todo)
 na('C19', 'PYTHONHASHSEED / process effects live in CPython C code and start-up, not reachable by symbolic execution of '
           'chython; modelling set order as arbitrary would over-approximate and raise false alarms (DESIGN.md C19)')
@@ -86,3 +86,14 @@ claim('C13',
       'uses the library itself for hydrogens and canonical strings (independent valence model: C04).',
       'symbolic execution of the real mutators with solver-enumerated arguments (minisym), differential against a rebuilt '
       'molecule', 'DESIGN.md §4 C13')
+claim('C04',
+      'Solver-certified exhaustive exploration of a finite domain: star environments around 12 (quick) / 20 (thorough) centre '
+      'elements with charge, radical flag and a multiset of up to 3 (4) neighbours over orders {1,2,3} x neighbour classes as '
+      'solver variables (realised by the code under test, exhaustion certified by unsat): real calc_implicit equals a '
+      're-derivation from the raw rule tuples, check_implicit accepts exactly the allowed counts, check_valence reports exactly '
+      'the atoms without a state, totals are sums; aromatic special cases; OpenSMILES organic-subset valence model on neutral '
+      'closed-shell atoms.',
+      'Not a generalising proof: every variable is a dictionary key in calc_implicit. Bounds as stated; the table oracle '
+      're-implements the first-matching-rule semantics from the docstring; RDKit comparison dropped (legitimate toolkit '
+      'differences).',
+      'symbolic execution with solver-enumerated finite domains (minisym) against two independent oracles', 'DESIGN.md §4 C04')
